@@ -8,8 +8,8 @@
     validator and guard tables), or a reviewed harmless class.  There is no "known crash" class: the rows that were
     crash sites while this check was built (link uri, match regexps validated bare, promql/regexp label name,
     range_query max validated only when non-empty, --disabled flag) were repaired in /repo (457aa6b, 4986535, 4008951,
-    0b2762d, 72c92b8).  ONE finding is open (C18-upstream-uri-unparsed), so Part 2 and the option theorem are stated
-    as _partial + _refuted; the full statements follow when the list of open findings is empty.
+    0b2762d, 72c92b8, and the upstream-URI nil dereference in promapi.doRequest: 6f3f221), no finding is open, and the
+    FULL statement is what is proved.
     Part 3 (finite, generated): load-time validation reaches every block of the configuration schema.
     The runtime remainder (that the harmless classes really are harmless, and crashes outside these sites) is covered by
     execution, not by proof. *)
@@ -153,10 +153,10 @@ Print Assumptions C18_name_link_aggregate_blocks_total.
 (* ---------------------------------------------------------------------------------------------- *)
 (** * Part 2 — dropped-error sites of the current source *)
 
-(** The FULL statement is: every site of internal/config, internal/checks, internal/promapi, internal/discovery and
-    cmd/pint where an error is dropped or a Must* helper gets a non-constant argument ([all_sites]: regenerated from
-    the Go AST on every run, so a NEW site without a reviewed row breaks the theorems) has a reviewed disposition that
-    is NOT a crash class, and what the disposition claims holds of the CURRENT source:
+(** FULL statement.  Every site of internal/config, internal/checks, internal/promapi, internal/discovery and cmd/pint
+    where an error is dropped or a Must* helper gets a non-constant argument ([all_sites]: regenerated from the Go AST
+    on every run, so a NEW site without a reviewed row breaks this theorem) has a reviewed disposition, and what the
+    disposition claims holds of the CURRENT source:
     - [ValidatedSame]: a validate() method calls the same function (or the function its Must wrapper wraps) on the
       same field and returns its error; that call is unconditional, or it is under `F != ""` and EVERY occurrence of
       the use site is under `F != ""` for the same field F;
@@ -164,49 +164,14 @@ Print Assumptions C18_name_link_aggregate_blocks_total.
     - [ValidatedWrapped]: an unconditional validator call exists on the bare pattern;
     - the remaining classes (zero value, rule data, constant, harmless, helper body, CLI flag) are review judgements
       exercised by the binary-level runs.
-    ONE finding is open (C18-upstream-uri-unparsed: promapi.doRequest drops the url.Parse error of an upstream URI that
-    no validate() ever parsed — prometheus.failover entries, discovery prometheusQuery.uri — and dereferences the nil
-    URL), so the full statement is FALSE of the current source (refuted below by the row itself) and what is proved is
-    the PARTIAL statement: every site is accounted for, and a site classified as a crash site belongs to an open known
-    finding — the crash rows are exactly [known_crash_findings] (kept in step with known_findings.d/C18.json). *)
-Theorem C18_every_dropped_error_is_validated_partial :
-  forall s, In s all_sites ->
-    exists d, disposition_of s = Some d /\ disposition_holds s d /\
-              (forall f, d = CrashKnown f -> In f known_crash_findings).
-Proof.
-  intros s Hin. destruct (site_ok_spec s (proj1 (forallb_forall _ _) all_sites_accounted s Hin)) as [d [Hd Hh]].
-  exists d. split; [exact Hd|]. split; [exact Hh|]. intros f E. subst d. exact Hh.
-Qed.
-Print Assumptions C18_every_dropped_error_is_validated_partial.
-
-Theorem C18_crash_rows_are_exactly_the_open_findings : crash_findings = known_crash_findings.
-Proof. exact crash_rows_exactly. Qed.
-Print Assumptions C18_crash_rows_are_exactly_the_open_findings.
-
-(** the full statement follows as soon as no finding is open *)
-Theorem C18_every_dropped_error_is_validated_when_no_open_finding :
-  known_crash_findings = [] ->
-  forall s, In s all_sites -> exists d, disposition_of s = Some d /\ disposition_holds s d /\ (forall f, d <> CrashKnown f).
-Proof.
-  intros Hnone s Hin. destruct (C18_every_dropped_error_is_validated_partial s Hin) as [d [Hd [Hh Hc]]].
-  exists d. split; [exact Hd|]. split; [exact Hh|]. intros f E. specialize (Hc f E). rewrite Hnone in Hc. exact Hc.
-Qed.
-Print Assumptions C18_every_dropped_error_is_validated_when_no_open_finding.
-
-(** … and is false now: the crash row of the current source *)
-Theorem C18_every_dropped_error_is_validated_refuted :
-  exists s, In s all_sites /\ is_crash s = true /\
-            ds_file s = "internal/promapi/prometheus.go" /\ ds_func s = "doRequest" /\ ds_callee s = "url.Parse".
-Proof.
-  assert (H : existsb (fun s => is_crash s && String.eqb (ds_file s) "internal/promapi/prometheus.go" &&
-                                String.eqb (ds_func s) "doRequest" && String.eqb (ds_callee s) "url.Parse") all_sites = true)
-    by (vm_compute; reflexivity).
-  apply existsb_exists in H. destruct H as [s [Hin H]].
-  apply andb_true_iff in H. destruct H as [H H4]. apply andb_true_iff in H. destruct H as [H H3].
-  apply andb_true_iff in H. destruct H as [H1 H2].
-  exists s. repeat split; [exact Hin | exact H1 | apply String.eqb_eq; exact H2 | apply String.eqb_eq; exact H3 | apply String.eqb_eq; exact H4].
-Qed.
-Print Assumptions C18_every_dropped_error_is_validated_refuted.
+    There is no crash class: [disposition] has no constructor for one.  (While finding C18-upstream-uri-unparsed was
+    open — promapi.doRequest dropping the url.Parse error of a failover / prometheusQuery URI — this was stated as
+    _partial + _refuted with a [CrashKnown] row for that site; fix 6f3f221 turned the drop into an error return, the
+    site is gone and the full statement holds again.) *)
+Theorem C18_every_dropped_error_is_validated :
+  forall s, In s all_sites -> exists d, disposition_of s = Some d /\ disposition_holds s d.
+Proof. intros s Hin. apply site_ok_spec. exact (proj1 (forallb_forall _ _) all_sites_accounted s Hin). Qed.
+Print Assumptions C18_every_dropped_error_is_validated.
 
 (** What the [ValidatedSame] class means semantically, for ANY partial function [f] shared by validator and use site
     (parseDuration, ParseSeverity, New(Raw)TemplatedRegexp, regexp.Compile of the anchored form, …): if the validator is
@@ -307,46 +272,41 @@ Proof.
 Qed.
 Print Assumptions C18_validation_reaches_every_block.
 
-(** Every OPTION (non-block hcl field) of every block.  FULL requirement: its block has a validate method, and validate
-    looks at the option (directly or through a method of the same type), or the option is a boolean, or it carries a
-    reviewed reason why any value is acceptable (33: free-text comments, literal lists, integers replaced by defaults,
-    display text, and the two options that ARE parsed later but never validated — match.keep_firing_for and
-    gitlab.timeout — whose dropped error only yields a zero value).  PARTIAL (proved): every option meets the full
-    requirement or is one of the options of an OPEN known finding; REFUTED: three options do not meet it
-    (prometheus.failover, discovery template failover, prometheusQuery.uri — upstream URIs nobody parses at load,
-    finding C18-upstream-uri-unparsed; round 3 wrongly listed them as reviewed-harmless).  A NEW option that validate
-    does not look at breaks the theorem until it is reviewed; a known-crash row is kept only while validate still
-    does not look at the option. *)
-Theorem C18_every_option_is_validated_or_reviewed_partial :
+(** Every OPTION (non-block hcl field) of every block: its block has a validate method, and validate looks at the option
+    (directly or through a method of the same type), or the option is a boolean, or it carries a reviewed reason why any
+    value is acceptable; every reviewed reason names an existing option.  128 options in the current source, 34 reviewed
+    (free-text comments, literal lists, display text, integers replaced by defaults, templates whose rendering goes
+    through PrometheusConfig.validate, and the two options that ARE parsed later but never validated —
+    match.keep_firing_for and gitlab.timeout — whose dropped error only yields a zero value).  A NEW option that
+    validate does not look at breaks this theorem until it is reviewed.
+    History: round 3 had prometheus.failover and prometheusQuery.uri among the reviewed options with the reason "a bad URI
+    is a request error" — wrong (nil dereference in promapi.doRequest); since fix 6f3f221 both are looked at by
+    validate (url.Parse) and have no row any more. *)
+Theorem C18_every_option_is_validated_or_reviewed :
   (forall a, In a config_attrs ->
      In (ca_struct a) validate_methods /\
-     (attr_mentioned a = true \/ ca_type a = "bool" \/ attr_reviewed a = true \/ attr_known_crash a = true)) /\
-  (forall r, In r unvalidated_attrs -> unvalidated_row_live r = true) /\
-  (forall r, In r unvalidated_crash_attrs -> crash_attr_row_live r = true /\ In (snd r) known_crash_findings).
+     (attr_mentioned a = true \/ ca_type a = "bool" \/ attr_reviewed a = true)) /\
+  (forall r, In r unvalidated_attrs -> unvalidated_row_live r = true).
 Proof.
-  split; [|split].
-  - intros a Hin. pose proof (proj1 (forallb_forall _ _) all_attrs_accounted a Hin) as H. unfold attr_ok, attr_safe in H.
-    apply orb_true_iff in H. destruct H as [H|H].
-    + apply andb_true_iff in H. destruct H as [Hm H]. split; [apply mem_str_In; exact Hm|].
-      apply orb_true_iff in H. destruct H as [H|H]; [|right; right; left; exact H].
-      apply orb_true_iff in H. destruct H as [H|H]; [left; exact H | right; left; apply String.eqb_eq; exact H].
-    + apply andb_true_iff in H. destruct H as [Hm H]. split; [apply mem_str_In; exact Hm|]. right; right; right; exact H.
+  split.
+  - intros a Hin. pose proof (proj1 (forallb_forall _ _) all_attrs_accounted a Hin) as H. unfold attr_ok in H.
+    apply andb_true_iff in H. destruct H as [Hm H]. split; [apply mem_str_In; exact Hm|].
+    apply orb_true_iff in H. destruct H as [H|H]; [|right; right; exact H].
+    apply orb_true_iff in H. destruct H as [H|H]; [left; exact H | right; left; apply String.eqb_eq; exact H].
   - exact (proj1 (forallb_forall _ _) no_stale_attr_rows).
-  - intros r Hin. split; [exact (proj1 (forallb_forall _ _) crash_attr_rows_live r Hin)|].
-    vm_compute in Hin. repeat (destruct Hin as [<-|Hin]; [vm_compute; left; reflexivity|]). contradiction.
 Qed.
-Print Assumptions C18_every_option_is_validated_or_reviewed_partial.
+Print Assumptions C18_every_option_is_validated_or_reviewed.
 
-Theorem C18_every_option_is_validated_or_reviewed_refuted :
-  exists a, In a config_attrs /\ attr_safe a = false /\ ca_struct a = "PrometheusConfig" /\ ca_field a = "Failover".
-Proof.
-  assert (H : existsb (fun a => negb (attr_safe a) && String.eqb (ca_struct a) "PrometheusConfig" && String.eqb (ca_field a) "Failover") config_attrs = true)
-    by (vm_compute; reflexivity).
-  apply existsb_exists in H. destruct H as [a [Hin H]].
-  apply andb_true_iff in H. destruct H as [H H3]. apply andb_true_iff in H. destruct H as [H1 H2].
-  exists a. repeat split; [exact Hin | apply negb_true_iff; exact H1 | apply String.eqb_eq; exact H2 | apply String.eqb_eq; exact H3].
-Qed.
-Print Assumptions C18_every_option_is_validated_or_reviewed_refuted.
+(** the two options of the repaired finding are now LOOKED AT by validate (regression guard for 6f3f221: if the
+    validation is removed again this fails, in addition to the corpus witnesses crashing the binary) *)
+Theorem C18_upstream_uris_are_validated :
+  mem_pair "PrometheusConfig" "Failover" validate_mentions = true /\
+  mem_pair "PrometheusConfig" "URI" validate_mentions = true /\
+  mem_pair "PrometheusQuery" "URI" validate_mentions = true /\
+  has_validator "PrometheusConfig.validate" "url.Parse" "pc.Failover[]" true = true /\
+  has_validator "PrometheusQuery.validate" "url.Parse" "pq.URI" true = true.
+Proof. vm_compute. repeat split. Qed.
+Print Assumptions C18_upstream_uris_are_validated.
 
 (** Non-vacuity: the tables are populated, contain validated rows of every mechanically checked kind, and the schema
     contains the rule-level blocks the property talks about. *)
